@@ -4,7 +4,15 @@
 //! is compared with direct filters over a reference model folded from the harness's own copies
 //! of the blocks.
 //!
-//! `vindexer [--seed S] [--tier quick|thorough] [histories=N] [budget_s=N] [workers=N]`
+//! The rich-indexer (`ckb_rich_indexer`: `AsyncRichIndexer` over sqlx + a private in-memory
+//! SQLite database, hook H8b) follows a subset of the same histories with the same rule and is
+//! judged by the same model under its own documented semantics (rich.rs; counters and violation
+//! signatures `rich.*`). A few histories appended after the standard ones use a workload with
+//! lock / type args and data made of 0xff bytes (both indexers follow them).
+//!
+//! `vindexer [--seed S] [--tier quick|thorough] [histories=N] [budget_s=N] [workers=N]
+//!  [rich_mod=9 rich_per_mod=1|2 (rich_mod=0: no rich part)] [boundary_histories=N]
+//!  [rich_keys_per_tip=N] [rich_keys_per_step=N] [only=HISTORY]`
 
 mod keys;
 mod model;
